@@ -66,7 +66,7 @@ TEXTS = {
     "C14": {
         "technique": SIM + "interleavings of registrations, updates (also aborted), handler changes over 2-3 policies sharing class ids",
         "design_ref": "DESIGN.md 4 (C14)",
-        "text": "After every event on one policy, everything published for each other policy (dispatch data, v-table pointer tables, hash parameters, control table, static v-table pointers, slots and strides, next cells), its catalogs, its handler and its held virtual_ptrs must be unchanged; each policy is also checked against its own model.",
+        "text": "After every event on one policy, everything published for each other policy (dispatch data, v-table pointer tables, hash parameters, control table, static v-table pointers, slots and strides, next cells), its catalogs, its handler and its held virtual_ptrs must be unchanged; each policy is also checked against its own model, and (solo differential) re-run alone in a pristine process with identical results. Engine tw2 does the same through the real registration front-end: two typed-world policies with interleaved histories sharing policy-independent definition functions, then each history alone; reports, outcome tables and verdicts must be identical.",
         "note": "policies are distinct types built with basic_policy / rebind",
     },
     "C15": {
@@ -76,7 +76,7 @@ TEXTS = {
         "note": "checked policies only (debug-shaped with the simulator's ids, stock debug with std_rtti, checked+indirect, deferred); final on an unregistered exact type is outside the property (final skips the look-up by design)",
     },
     "C16": {
-        "technique": "deterministic simulation: seeded thread schedules (real threads parked and released one at a time) under ThreadSanitizer with a hidden hand-off, results compared with the sequential execution",
+        "technique": "deterministic simulation: seeded thread schedules (real threads parked and released one at a time) under ThreadSanitizer with a hidden hand-off, results compared with the sequential execution; 8% cold runs in a pristine process (first-use paths run concurrently)",
         "design_ref": "DESIGN.md 3.6, 4 (C16)",
         "text": "Caller threads run seeded scripts on policy A (calls through every argument route, resolve only, erroring calls whose handler throws, making / copying / converting / using / dropping virtual_ptrs and virtual_shared_ptrs) while another thread loads, unloads, updates (also with injected faults) and calls policy B; the scheduler decides every interleaving from the seed. Checked: no ThreadSanitizer report (found by happens-before analysis although execution is serialised, hence replayable), every result equals the one of the sequential execution of the same script and the model, and the data update<A> published is unchanged at every scheduler step.",
         "note": "exploration over schedules; TSan sees no synchronisation between tasks because the scheduler's futex words are only touched from uninstrumented functions",
